@@ -268,7 +268,18 @@ theorem addApks_keep {o : Opts} {fs : SbomDir} {ord : List Id → List Id} {nonc
       unfold addApk at ha
       exact processInternal_keep (append_pkg_keep h (hapk a (by simp))) (hname a (by simp)) hemb ha
 
-theorem header_keep {o : Opts} (hn : (header o).ids.Nodup) : Keep o (header o) := by
+/-- header elements with the same identifier are the same element (a layer digest listed twice is allowed;
+two digests that sanitise to one identifier, or a source identifier equal to a layer's, are not) -/
+def HdrInj (o : Opts) : Prop :=
+  ∀ p ∈ (header o).packages, ∀ q ∈ (header o).packages, p.id = q.id → p = q
+
+theorem hdrInj_of_nodup {o : Opts} (hn : (header o).ids.Nodup) : HdrInj o :=
+  inj_of_nodup_map (f := fun x : Pkg => x.id) hn
+
+theorem prot_sub_header {o : Opts} {p : Pkg} (hp : p ∈ protPkgs o) : p ∈ (header o).packages := by
+  rw [header_packages]; exact List.mem_append_left _ hp
+
+theorem header_keep {o : Opts} (hn : HdrInj o) : Keep o (header o) := by
   refine ⟨?_, ?_, ?_, ?_⟩
   · intro he
     rw [header_image he]
@@ -279,21 +290,14 @@ theorem header_keep {o : Opts} (hn : (header o).ids.Nodup) : Keep o (header o) :
     · simp only [headerBase, List.mem_map]; exact ⟨l, hl, rfl⟩
     · simp only [addSourcePackage, headerBase, List.mem_append, List.mem_map]; exact Or.inl ⟨l, hl, rfl⟩
   · intro p hp
-    rw [header_packages]
-    exact List.mem_append_left _ hp
+    exact prot_sub_header hp
   · intro p hp hpi
-    rw [header_packages] at hp
-    rcases List.mem_append.mp hp with hp | hp
-    · exact hp
-    · rw [header_ids, List.nodup_append] at hn
-      exact absurd rfl (hn.2.2 p.id hpi p.id (List.mem_map_of_mem (f := fun x : Pkg => x.id) hp))
-
-theorem protIds2_nodup {o : Opts} (hn : (header o).ids.Nodup) : (protIds2 o).Nodup := by
-  rw [header_ids, List.nodup_append] at hn
-  exact hn.1
+    obtain ⟨q, hq, hqi⟩ := List.mem_map.mp hpi
+    have : q = p := hn q (prot_sub_header hq) p hp hqi
+    exact this ▸ hq
 
 /-- from the invariant to the oracle's clauses, through the de-dup pass -/
-theorem keep_dedup_find {o : Opts} {doc : Doc} (hn : (protIds2 o).Nodup) (h : Keep o doc) {q : Pkg}
+theorem keep_dedup_find {o : Opts} {doc : Doc} (hn : HdrInj o) (h : Keep o doc) {q : Pkg}
     (hq : q ∈ protPkgs o) : q ∈ dedup doc.packages := by
   have hqi : q.id ∈ (dedup doc.packages).map (·.id) :=
     (dedup_ids _ _).mpr (List.mem_map_of_mem (f := fun x : Pkg => x.id) (h.keep q hq))
@@ -301,17 +305,17 @@ theorem keep_dedup_find {o : Opts} {doc : Doc} (hn : (protIds2 o).Nodup) (h : Ke
   have hpp : p ∈ protPkgs o := h.only p (dedup_mem hp) (by
     show p.id ∈ protIds2 o
     rw [hpi]; exact List.mem_map_of_mem (f := fun x : Pkg => x.id) hq)
-  have : p = q := inj_of_nodup_map (f := fun x : Pkg => x.id) hn p hpp q hq hpi
+  have : p = q := hn p (prot_sub_header hpp) q (prot_sub_header hq) hpi
   exact this ▸ hp
 
-theorem keep_imageOk {o : Opts} {doc : Doc} (hn : (protIds2 o).Nodup) (h : Keep o doc) :
+theorem keep_imageOk {o : Opts} {doc : Doc} (hn : HdrInj o) (h : Keep o doc) :
     ImageOk o { doc with packages := dedup doc.packages } := by
   intro he
   refine ⟨imageId o.imageDigest, h.desc he, imagePackage o.imageDigest,
     keep_dedup_find hn h (imagePackage_mem_prot he), rfl, rfl, ?_⟩
   simp [imagePackage]
 
-theorem keep_layersOk {o : Opts} {doc : Doc} (hn : (protIds2 o).Nodup) (h : Keep o doc) :
+theorem keep_layersOk {o : Opts} {doc : Doc} (hn : HdrInj o) (h : Keep o doc) :
     LayersOk o { doc with packages := dedup doc.packages } := by
   intro l hl
   refine ⟨layerPackage o.osVersion l, keep_dedup_find hn h (layerPackage_mem_prot hl), rfl, ?_⟩
